@@ -536,7 +536,8 @@ def classify(c, io, drv):
 
 def nontrivial(c, io):
     if c["entry"] == "hist":
-        return any("secs" in st for st in io["steps"]) and not any("err" in st for st in io["steps"])
+        return any("secs" in st for st in io["steps"]) and not any(
+            "err" in st and not (op[0] == "build" and c["dsgs"][op[1]].get("bad")) for st, op in zip(io["steps"], c["ops"]))
     return "err" not in io
 
 
